@@ -15,7 +15,9 @@ Cases ==
   {[kind |-> "proglist", k |-> k, prog |-> p] : k \in {<<"C">>, <<"e","b">>}, p \in UNION {[1..n -> ProgAlphabet] : n \in 2..ProgLen}} \cup
   {[kind |-> "badnumeral", text |-> s] : s \in {"IIII", "VV", "IIV", "X", "XI", "VIII", "m7", "7", "IVI"}} \cup
   {[kind |-> "function", k |-> k, d |-> d] : k \in MajorKeys, d \in 1..7} \cup
-  {[kind |-> "subst", d |-> d, acc |-> a, prefix |-> Prefix(a), suffix |-> s] : d \in 1..7, a \in -1..1, s \in SubSuffixes}
+  {[kind |-> "subst", d |-> d, acc |-> a, prefix |-> Prefix(a), suffix |-> s] : d \in 1..7, a \in -1..1, s \in SubSuffixes} \cup
+  \* the diminished cycle walks by minor thirds and piles up accidentals: start it from doubly and triply altered numerals too
+  {[kind |-> "subst", d |-> d, acc |-> a, prefix |-> Prefix(a), suffix |-> s] : d \in 1..7, a \in {-3, -2, 2, 3}, s \in {"dim", "dim7"}}
 VARIABLE done
 Init == done = ndJsonSerialize(IOEnv.OUT, SetToSeq(Cases))
 Next == FALSE /\ done' = done
